@@ -16,6 +16,8 @@ fn probe(src: &str, workers: usize, strat: Strategy, seed: u64) {
 
 fn quiver_compiler_parse(s: &str) -> bool { vh::qv::parses(s) }
 
+fn quiver_compiler_parse_ast(s: &str) -> Result<vh::c17::AstProgram, String> { vh::c17::parse_ast(s) }
+
 fn main() {
     let args: Vec<String> = std::env::args().collect();
     if args.len() >= 3 && args[1] == "probe" {
@@ -67,6 +69,12 @@ fn main() {
     if args.len() >= 7 && args[1] == "c12-child" {
         let p = |i: usize| args[i].parse::<u64>().unwrap();
         vh::c12::child_main(p(2), p(3), p(4), p(5), p(6));
+        return;
+    }
+    if args.len() >= 3 && args[1] == "fmt" {
+        let src = if std::path::Path::new(&args[2]).exists() { std::fs::read_to_string(&args[2]).unwrap() } else { args[2].replace("\\n", "\n") };
+        println!("{:?}", vh::c17::judge_shrunk(&src).0);
+        if let Ok(ast) = quiver_compiler_parse_ast(&src) { let f = vh::c17::fmt(&ast, &src); println!("--- formatted ---\n{}--- again ---\n{}", f, quiver_compiler_parse_ast(&f).map(|a| vh::c17::fmt(&a, &f)).unwrap_or("<reparse failed>".into())); }
         return;
     }
     if args.len() >= 2 && args[1] == "corpus" {
@@ -146,6 +154,7 @@ fn main() {
         "C20" => { vh::c20::check(&rep); rep.finish(vh::c20::RULE, vh::c20::ASSUME, vh::c20::SITUATIONS) }
         "C19" => { vh::c19::check(&rep); rep.finish(vh::c19::RULE, vh::c19::ASSUME, vh::c19::SITUATIONS) }
         "C18" => { vh::c18::check(&rep); rep.finish(vh::c18::RULE, vh::c18::ASSUME, vh::c18::SITUATIONS) }
+        "C17" => { vh::c17::check(&rep); rep.finish(vh::c17::RULE, vh::c17::ASSUME, vh::c17::SITUATIONS) }
         _ => { eprintln!("unknown property {}", id); 2 }
     };
     std::process::exit(code);
